@@ -78,7 +78,10 @@ def asan_runtime() -> str:
 
 def asan_env(log_path: Optional[str] = None, halt: bool = True) -> Dict[str, str]:
     opts = ['detect_leaks=0', f'halt_on_error={1 if halt else 0}', 'abort_on_error=1', 'allocator_may_return_null=1',
-            'handle_segv=1', 'symbolize=1']
+            'handle_segv=1', 'symbolize=1',
+            # freed blocks are overwritten: (uninstrumented) CPython code that follows a dangling pointer left behind by the
+            # extension - a stolen reference released twice, say - dies on the spot instead of reading plausible stale data
+            'max_free_fill_size=65536', 'free_fill_byte=189']
     if log_path:
         opts.append(f'log_path={log_path}')
     return {
